@@ -6,7 +6,9 @@
    Section variable.  Payload (de)serialisation is the wire model of C02 (model/M02_wire.v).
    Follows the code after the `fix:` commit "a cell that fails authenticated decryption raises
    RuntimeError out of the receive path" (decrypt_cell turns every failure of decrypt_str into a
-   CryptoException, i.e. a dropped cell).  Statistics (bytes_up / bytes_down / last_activity) are not
+   CryptoException, i.e. a dropped cell), "a cell for a rendezvous relay whose other half was removed raises
+   KeyError" and "circuit control messages returned through an exit are executed by the circuit's originator"
+   (data_message_ids).  Statistics (bytes_up / bytes_down / last_activity) are not
    modelled.  No proofs here. *)
 From Coq Require Import ZArith List Bool Lia.
 From IPV8V Require Import lib.PyErr lib.Bytes lib.BE model.M02_wire model.M03_recv.
@@ -109,17 +111,18 @@ Record node := mkNode {
   n_max_early : Z;                 (* settings.max_relay_early *)
   n_flags : list Z;                (* settings.peer_flags *)
   n_handlers : list Z;             (* keys of decode_map_private *)
+  n_data_ids : list Z;             (* data_message_ids: cell messages also accepted out of a data message *)
   n_tunnel_ep : bool;              (* isinstance(self.endpoint, TunnelEndpoint) *)
   n_circuits : list (Z * circuit);
   n_relays : list (Z * relay_route);
   n_exits : list (Z * exit_sock) }.
 
 Definition set_circuits (nd : node) cs :=
-  mkNode (n_prefix nd) (n_max_early nd) (n_flags nd) (n_handlers nd) (n_tunnel_ep nd) cs (n_relays nd) (n_exits nd).
+  mkNode (n_prefix nd) (n_max_early nd) (n_flags nd) (n_handlers nd) (n_data_ids nd) (n_tunnel_ep nd) cs (n_relays nd) (n_exits nd).
 Definition set_relays (nd : node) rs :=
-  mkNode (n_prefix nd) (n_max_early nd) (n_flags nd) (n_handlers nd) (n_tunnel_ep nd) (n_circuits nd) rs (n_exits nd).
+  mkNode (n_prefix nd) (n_max_early nd) (n_flags nd) (n_handlers nd) (n_data_ids nd) (n_tunnel_ep nd) (n_circuits nd) rs (n_exits nd).
 Definition set_exits (nd : node) es :=
-  mkNode (n_prefix nd) (n_max_early nd) (n_flags nd) (n_handlers nd) (n_tunnel_ep nd) (n_circuits nd) (n_relays nd) es.
+  mkNode (n_prefix nd) (n_max_early nd) (n_flags nd) (n_handlers nd) (n_data_ids nd) (n_tunnel_ep nd) (n_circuits nd) (n_relays nd) es.
 
 (* Circuit.hop: first verified hop, else the unverified one (None.attr -> AttributeError, rendered TypeError) *)
 Definition circuit_hop (c : circuit) : res hop :=
@@ -269,13 +272,13 @@ Definition relay_cell (nd : node) (c : cell) (ns : nat -> nonce) : res (node * l
         else
           do oc <-
             (if rr_rdv nxt then
-               match catch_crypto (decrypt_cell c FORWARD [rr_hop nxt]) with
-               | Raise e => Raise e
-               | Ok None => Ok None
-               | Ok (Some c1) =>
-                   match assoc (rr_cid nxt) (n_relays nd) with
-                   | None => Raise KeyError
-                   | Some this =>
+               match assoc (rr_cid nxt) (n_relays nd) with
+               | None => Ok None                       (* other half of the rendezvous relay is gone: dropped *)
+               | Some this =>
+                   match catch_crypto (decrypt_cell c FORWARD [rr_hop nxt]) with
+                   | Raise e => Raise e
+                   | Ok None => Ok None
+                   | Ok (Some c1) =>
                        do oc2 <- catch_crypto (encrypt_cell c1 BACKWARD [rr_hop this] ns);
                        Ok (match oc2 with
                            | Some c2 => Some (mkCell (cl_cid c2) (cl_msg c2) (cl_plain c2) false)
@@ -342,7 +345,10 @@ Definition on_data (nd : node) (sock_addr : addr) (data : bytes) : res (node * l
           do h0 <- circuit_hop ci;
           if addr_eqb sock_addr (h_addr h0) then
             if could_be_ipv8 payload && negb (is_e2e (c_ctype ci)) then
-              if bytes_eqb (n_prefix nd) (slice payload None (Some 22)) then Ok (nd, [Reinject origin payload cid])
+              if bytes_eqb (n_prefix nd) (slice payload None (Some 22)) then
+                (* only messages registered with from_data are taken from a data message; the rest is dropped *)
+                do m <- idx payload 22;
+                if existsb (Z.eqb m) (n_data_ids nd) then Ok (nd, [Reinject origin payload cid]) else Ok (nd, [])
               else if n_tunnel_ep nd then Ok (nd, [NotifyOther origin payload])
               else Ok (nd, [])
             else Ok (nd, [RawData cid origin payload])
@@ -457,6 +463,30 @@ Definition on_packet (nd : node) (src : addr) (data : bytes) (rnd : Z -> bytes) 
     if b =? 0 then process_cell nd src data rnd ns else Ok (nd, [NonCell src data])
   else Ok (nd, [NonCell src data]).
 
+(* on_data's hand-over of a returned datagram to on_packet_from_circuit (action Reinject) happens inside the same
+   call: the dispatcher runs on the returned bytes with the OUTSIDE sender as source address.  on_data returns right
+   after it, with the state untouched, so the nested dispatches can be unrolled after the first-level result. *)
+Fixpoint expand (fuel : nat) (rnd : Z -> bytes) (ns : nat -> nonce) {struct fuel}
+  : node -> list action -> res (node * list action) :=
+  fix go (nd : node) (acts : list action) {struct acts} : res (node * list action) :=
+    match acts with
+    | [] => Ok (nd, [])
+    | Reinject origin payload cid :: tl =>
+        match fuel with
+        | O => do (nd2, a2) <- go nd tl; Ok (nd2, Reinject origin payload cid :: a2)
+        | S f =>
+            do (nd1, a1) <- on_packet_from_circuit nd origin payload cid rnd ns;
+            do (nd1', a1') <- expand f rnd ns nd1 a1;
+            do (nd2, a2) <- go nd1' tl;
+            Ok (nd2, Reinject origin payload cid :: a1' ++ a2)
+        end
+    | a :: tl => do (nd2, a2) <- go nd tl; Ok (nd2, a :: a2)
+    end.
+
+Definition on_packet_rec (nd : node) (src : addr) (data : bytes) (rnd : Z -> bytes) (ns : nat -> nonce)
+  : res (node * list action) :=
+  do (nd1, a1) <- on_packet nd src data rnd ns; expand (length data) rnd ns nd1 a1.
+
 End AEAD.
 
 Arguments mkHop {key}. Arguments h_pk {key}. Arguments h_addr {key}. Arguments h_keys {key}.
@@ -466,7 +496,7 @@ Arguments mkRR {key}. Arguments rr_cid {key}. Arguments rr_hop {key}. Arguments 
 Arguments rr_rdv {key}. Arguments rr_early {key}.
 Arguments mkES {key}. Arguments es_cid {key}. Arguments es_hop {key}. Arguments es_enabled {key}.
 Arguments mkNode {key}. Arguments n_prefix {key}. Arguments n_max_early {key}. Arguments n_flags {key}.
-Arguments n_handlers {key}. Arguments n_tunnel_ep {key}. Arguments n_circuits {key}.
+Arguments n_handlers {key}. Arguments n_data_ids {key}. Arguments n_tunnel_ep {key}. Arguments n_circuits {key}.
 Arguments n_relays {key}. Arguments n_exits {key}.
 Arguments set_circuits {key}. Arguments set_relays {key}. Arguments set_exits {key}.
 Arguments circuit_hop {key}. Arguments shift {nonce}.
@@ -480,3 +510,4 @@ Arguments on_ping {key nonce}. Arguments on_pong {key}. Arguments on_test_reques
 Arguments on_test_response {key}. Arguments on_packet_from_circuit {key nonce}.
 Arguments on_cell {key nonce}. Arguments community_on_cell_packet {key nonce}.
 Arguments process_cell {key nonce}. Arguments on_packet {key nonce}.
+Arguments expand {key nonce}. Arguments on_packet_rec {key nonce}.
